@@ -38,6 +38,7 @@ GENERATORS = [
     ('gen_views.py', 'ViewGen.v', 'translate-views'),
     ('gen_edit.py', 'EditGen.v', 'translate-edit'),
     ('gen_glue.py', 'GlueGen.v', 'translate-glue'),
+    ('gen_token.py', 'TokenGen.v', 'translate-token'),
 ]
 # properties whose theorems are about the reader model (the others quantify
 # over arbitrary trees / lists / buffers)
@@ -48,11 +49,12 @@ GEN_PROPS = {
     'translate-tokrules': (('C19', 'C17'), ('C19gen.v', 'C19glue.v', 'C17glue.v')),
     'translate-buffer': (('C20',), 'C20gen.v'),
     'translate-clo': (('C13',), 'C13clogen.v'),
-    'translate-args': (('C18',), 'C18gen.v'),
+    'translate-args': (('C18', 'C15'), ('C18gen.v', 'C15gen.v')),
+    'translate-token': (('C13',), 'C13token.v'),
     'translate-reader': (READER_PROPS, ('ReadGen.v', 'C17glue.v')),
     'translate-glue': (('C19', 'C17'), ('C19glue.v', 'C17glue.v')),
-    'translate-views': (('C03', 'C04'), ('C03gen.v', 'C04gen.v')),
-    'translate-edit': (('C05', 'C14'), ('C05gen.v', 'C14gen.v')),
+    'translate-views': (('C03', 'C04', 'C15'), ('C03gen.v', 'C04gen.v', 'C15gen.v')),
+    'translate-edit': (('C05', 'C14', 'C15'), ('C05gen.v', 'C14gen.v', 'C15gen.v')),
 }
 # Props files that are obligations of several properties (not named after one)
 SHARED_PROPS = {'ReadGen.v': READER_PROPS}
